@@ -12,12 +12,40 @@ SHRINK = re.compile(r'Vec::<T, A>::(pop|truncate|clear|drain|remove)$')
 ASSUMPTIONS = ['the Raft WAL append is durable when it returns Ok (sync policy is RaftWal\'s own)']
 
 
+def _persist_wrappers(rep, cr):
+    """RaftNode::persist_* methods that return Ok only after a successful Raft WAL append (or when no WAL is configured):
+    a call to one of them counts as a persist; persist_log_entry must be among them."""
+    out = []
+    for name, f in sorted(cr.fns.items()):
+        if not re.match(r'tensor_chain::raft::RaftNode::persist_\w+$', name) or name.endswith('persist_term_and_vote'):
+            continue
+        uses = A.Uses(f)
+        app = A.calls_to(f, ('re', r'RaftWal.*::append$'))
+        cut = set()
+        for c in app:
+            cut |= A.call_outcome(f, c, uses).ok
+        none_edges = set()
+        for b in f.bbs:
+            if b['cleanup']:
+                continue
+            for st in b['s']:
+                if st[1][0] == 'disc' and any(x.endswith('RaftNode.wal') for x in A.place_fields(st[1][1])):
+                    none_edges |= A.outcome_edges(f, st[0][0], kind='disc_option', uses=uses).err
+        if app and cut and not lib.success_return_reachable(f, [0], cut_edges=cut | none_edges):
+            out.append(name)
+    if 'tensor_chain::raft::RaftNode::persist_log_entry' not in out:
+        rep.violation('R10a', 'anchor-missing', 'persist_log_entry', '-', 'anchor-missing: persist_log_entry is not a function that returns Ok only after a successful WAL append')
+    rep.notes.append('R10a: persist wrappers = %s' % [lib.short(x) for x in out])
+    return out
+
+
 def r10a(ctx, rep):
     rep.rule('R10a', 'every site that adds entries to PersistentState.log (Vec::push/extend/insert on the field, or assignment of '
                      'the field) either follows a successful persist, or every path from it to a success exit passes the Ok-edge '
                      'of persist_log_entry / a Raft WAL append, or a rollback (pop/truncate) followed by a failure exit')
     cr = ctx.crate('tensor_chain')
     n = 0
+    wrappers = _persist_wrappers(rep, cr)
     for f in cr.fns.values():
         sites = []
         uses = None
@@ -35,7 +63,7 @@ def r10a(ctx, rep):
             continue
         rep.analysed(f)
         uses = uses or A.Uses(f)
-        pcs = A.calls_to(f, 'tensor_chain::raft::RaftNode::persist_log_entry') + \
+        pcs = [c for w in wrappers for c in A.calls_to(f, w)] + \
             A.calls_to(f, ('re', r'raft_wal::RaftWal::<.*>::append$'))
         ok_edges = set()
         for pc in pcs:
